@@ -4,6 +4,7 @@ package main
 
 import (
 	"fmt"
+	"go/types"
 	"strings"
 
 	"golang.org/x/tools/go/ssa"
@@ -891,4 +892,102 @@ func (c *Check) codecContracts(rule string) {
 			mustNot: []string{"call:invoke:optionalParam.encode"}, why: "an OPEN is emitted only when all of it was encoded"})
 	}
 	c.contracts(rule, rows)
+}
+
+// accumulatorsStartEmpty: a slice that a loop grows by append(acc, …) starts
+// with no elements (make(T, 0[, cap]), nil, or an empty literal): an
+// accumulator made with a non-zero length hands out zero elements (octets,
+// capabilities, prefixes) nobody put there.
+func (c *Check) accumulatorsStartEmpty(rule string, fns ...string) {
+	p := c.P
+	n := 0
+	for _, name := range fns {
+		fn := p.Funcs[name]
+		if fn == nil {
+			continue
+		}
+		for _, g := range deepFuncs(fn) {
+			for _, b := range g.Blocks {
+				for _, in := range b.Instrs {
+					phi, ok := in.(*ssa.Phi)
+					if !ok {
+						break
+					}
+					if _, isSlice := phi.Type().Underlying().(*types.Slice); !isSlice || !inLoopLocal(b) {
+						continue
+					}
+					grows := false
+					for i, e := range phi.Edges {
+						if !b.Dominates(b.Preds[i]) {
+							continue
+						}
+						seen := map[ssa.Value]bool{}
+						var viaAppend func(v ssa.Value) bool
+						viaAppend = func(v ssa.Value) bool {
+							if seen[v] {
+								return false
+							}
+							seen[v] = true
+							switch x := v.(type) {
+							case *ssa.Call:
+								if bi, isB := x.Call.Value.(*ssa.Builtin); isB && bi.Name() == "append" {
+									return x.Call.Args[0] == ssa.Value(phi) || viaAppend(x.Call.Args[0])
+								}
+							case *ssa.Phi:
+								for _, y := range x.Edges {
+									if viaAppend(y) {
+										return true
+									}
+								}
+							}
+							return false
+						}
+						if viaAppend(e) {
+							grows = true
+						}
+					}
+					if !grows {
+						continue
+					}
+					for i, e := range phi.Edges {
+						if b.Dominates(b.Preds[i]) {
+							continue
+						}
+						n++
+						var startsEmpty func(v ssa.Value, depth int) bool
+						startsEmpty = func(v ssa.Value, depth int) bool {
+							if depth > 6 {
+								return false
+							}
+							switch x := v.(type) {
+							case *ssa.MakeSlice:
+								cst, isC := x.Len.(*ssa.Const)
+								return isC && cst.Value != nil && cst.Int64() == 0
+							case *ssa.Const:
+								return x.IsNil()
+							case *ssa.Slice:
+								// an empty literal: new [0]T sliced
+								if al, isA := x.X.(*ssa.Alloc); isA {
+									if at, isArr := al.Type().(*types.Pointer).Elem().Underlying().(*types.Array); isArr && at.Len() == 0 {
+										return true
+									}
+								}
+							case *ssa.Parameter:
+								return true // the caller's accumulator
+							case *ssa.Call:
+								// elements put there on purpose before the loop
+								if bi, isB := x.Call.Value.(*ssa.Builtin); isB && bi.Name() == "append" {
+									return startsEmpty(x.Call.Args[0], depth+1)
+								}
+							}
+							return false
+						}
+						ok := startsEmpty(e, 0)
+						c.require(ok, rule, p.Name(g), "accumulator "+phi.Comment, p.InstrPos(phi), "a slice grown by append in a loop starts empty")
+					}
+				}
+			}
+		}
+	}
+	c.floor(rule, n, 1, "append accumulators")
 }
